@@ -753,3 +753,179 @@ Proof.
   - destruct (IH (mkM None) eq_refl) as (A & B & C). destruct (mrun fresh stale (mkM None) t) as [[m2 r2] f2]. simpl in *.
     repeat split; auto.
 Qed.
+
+(* ====================================================================================== *)
+(* Stream.copy: every copy is a separate (state, memo) pair                                   *)
+Lemma hset_length {A} (h : list A) : forall i x, length (hset h i x) = length h.
+Proof. induction h as [|y t IH]; intros [|i] x; simpl; auto. Qed.
+
+Lemma nth_error_hset_same {A} (h : list A) : forall i x y, nth_error h i = Some y -> nth_error (hset h i x) i = Some x.
+Proof. induction h as [|z t IH]; intros [|i] x y E; simpl in *; try discriminate; eauto. Qed.
+
+Lemma nth_error_hset_other {A} (h : list A) : forall i j x, j <> i -> nth_error (hset h i x) j = nth_error h j.
+Proof.
+  induction h as [|z t IH]; intros [|i] [|j] x N; simpl; auto; try congruence.
+Qed.
+
+Lemma map_hset {A B} (f : A -> B) (h : list A) : forall i x, map f (hset h i x) = hset (map f h) i (f x).
+Proof. induction h as [|z t IH]; intros [|i] x; simpl; auto. rewrite IH. reflexivity. Qed.
+
+Lemma nth_error_map_fst {A B} (h : list (A * B)) : forall i,
+  nth_error (map fst h) i = match nth_error h i with Some st => Some (fst st) | None => None end.
+Proof. induction h as [|z t IH]; intros [|i]; simpl; auto. Qed.
+
+Lemma Forall_hset {A} (P : A -> Prop) (h : list A) : forall i x, Forall P h -> P x -> Forall P (hset h i x).
+Proof.
+  induction h as [|z t IH]; intros [|i] x F Px; simpl; auto.
+  - inversion F; subst. constructor; auto.
+  - inversion F; subst. constructor; auto.
+Qed.
+
+Lemma Forall_nth_error {A} (P : A -> Prop) (h : list A) i x : Forall P h -> nth_error h i = Some x -> P x.
+Proof. intros F E. rewrite Forall_forall in F. apply F. eapply nth_error_In; eauto. Qed.
+
+Section HeapProofs.
+  Variable hspec : nat -> vec -> Q -> Q.
+  Hypothesis hspec_ext : forall ph z z' T T', T == T' -> veqb z z' = true -> hspec ph z T == hspec ph z' T'.
+
+  (* the heap without any memo: one state per stream; a copy appends the state of its source *)
+  Definition shstep_ref (h : list pstream) (o : hsop) : list pstream * list Q :=
+    match o with
+    | HOn i o => match nth_error h i with
+                 | Some s => let (s', r) := sstep_ref hspec s o in (hset h i s', r)
+                 | None => (h, [])
+                 end
+    | HCopyS i => match nth_error h i with
+                  | Some s => (h ++ [s], [])
+                  | None => (h, [])
+                  end
+    end.
+  Fixpoint shrun_ref (h : list pstream) (ops : list hsop) : list pstream * list Q :=
+    match ops with
+    | [] => (h, [])
+    | o :: t => let (h1, r1) := shstep_ref h o in let (h2, r2) := shrun_ref h1 t in (h2, r1 ++ r2)
+    end.
+
+  Definition hinv (h : sheap) : Prop := Forall (fun st => cinv hspec (snd st)) h.
+
+  Lemma sstep_transparent s c o : cinv hspec c ->
+    fst (fst (sstep hspec (s, c) o)) = fst (sstep_ref hspec s o) /\
+    Forall2 Qeq (snd (sstep hspec (s, c) o)) (snd (sstep_ref hspec s o)) /\
+    cinv hspec (snd (fst (sstep hspec (s, c) o))).
+  Proof.
+    intros I. destruct o as [| |x|m|ph]; simpl; auto.
+    - destruct (get_H_spec hspec hspec_ext c s I) as (V & I').
+      destruct (get_H hspec c s) as [v c'] eqn:G. simpl in *. repeat split; auto.
+    - repeat split; auto. apply read_other_inv; auto.
+  Qed.
+
+  Lemma shstep_transparent h o : hinv h ->
+    map fst (fst (shstep hspec h o)) = fst (shstep_ref (map fst h) o) /\
+    Forall2 Qeq (snd (shstep hspec h o)) (snd (shstep_ref (map fst h) o)) /\
+    hinv (fst (shstep hspec h o)).
+  Proof.
+    intros I. destruct o as [i o|i]; unfold shstep, shstep_ref; rewrite nth_error_map_fst.
+    - destruct (nth_error h i) as [[s c]|] eqn:E; cbn [fst snd]; [|repeat split; auto].
+      assert (Ic : cinv hspec c) by (apply (Forall_nth_error _ h i (s, c) I E)).
+      destruct (sstep_transparent s c o Ic) as (A & B & C).
+      destruct (sstep hspec (s, c) o) as [[s' c'] r] eqn:S. destruct (sstep_ref hspec s o) as [s2 r2] eqn:R.
+      cbn [fst snd] in *. subst s2. split; [|split]; auto.
+      + rewrite map_hset. reflexivity.
+      + apply Forall_hset; auto.
+    - destruct (nth_error h i) as [[s c]|] eqn:E; cbn [fst snd]; [|repeat split; auto].
+      split; [|split]; auto.
+      + rewrite map_app. unfold copy_entry. simpl. destruct s; reflexivity.
+      + apply Forall_app. split; auto. constructor; [exact Logic.I|constructor].
+  Qed.
+
+  (* ANY history over the heap -- reads, changes, copies of anything, in any order: every stream ends in
+     the state of the memo-free run (so no stream is changed through another one, and a copy starts in the
+     state of its source), every H read is the enthalpy of the state of the stream it was read from,
+     all memos stay consistent *)
+  Lemma shrun_transparent ops : forall h, hinv h ->
+    map fst (fst (shrun hspec h ops)) = fst (shrun_ref (map fst h) ops) /\
+    Forall2 Qeq (snd (shrun hspec h ops)) (snd (shrun_ref (map fst h) ops)) /\
+    hinv (fst (shrun hspec h ops)).
+  Proof.
+    induction ops as [|o t IH]; intros h I; simpl; [repeat split; auto|].
+    destruct (shstep_transparent h o I) as (A & B & C).
+    destruct (shstep hspec h o) as [h1 r1]. destruct (shstep_ref (map fst h) o) as [g1 q1]. simpl in *. subst g1.
+    destruct (IH h1 C) as (A2 & B2 & C2).
+    destruct (shrun hspec h1 t) as [h2 r2]. destruct (shrun_ref (map fst h1) t) as [g2 q2]. simpl in *.
+    repeat split; auto. apply Forall2_app; auto.
+  Qed.
+
+  (* frame: an operation through stream i leaves every other stream AND its memo as they were *)
+  Lemma shstep_frame h i o j : j <> i -> nth_error (fst (shstep hspec h (HOn i o))) j = nth_error h j.
+  Proof.
+    intros N. simpl. destruct (nth_error h i) as [st|]; auto.
+    destruct (sstep hspec st o) as [st' r]. simpl. apply nth_error_hset_other; auto.
+  Qed.
+
+  (* copy: every existing stream and memo as they were; the new one has the state of the source and an EMPTY memo *)
+  Lemma shstep_copy h i s c : nth_error h i = Some (s, c) ->
+    (forall j, (j < length h)%nat -> nth_error (fst (shstep hspec h (HCopyS i))) j = nth_error h j) /\
+    nth_error (fst (shstep hspec h (HCopyS i))) (length h) = Some (s, cache0) /\
+    snd (shstep hspec h (HCopyS i)) = [].
+  Proof.
+    intros E. simpl. rewrite E. simpl. repeat split; auto.
+    - intros j L. apply nth_error_app1; auto.
+    - rewrite nth_error_app2; auto. rewrite Nat.sub_diag. simpl. destruct s; reflexivity.
+  Qed.
+
+  Variable solveP : nat -> vec -> Q -> res Q.
+  Variable hf : vec.
+  Hypothesis solveC_ok : forall ph m h t, solveP ph m h = Ok t -> HfunC hspec ph m t == h.
+
+  Definition HN (p : pstream) : Q := HfunC hspec (pph p) (pmol p) (pT p) + Hf_of hf (pmol p).
+
+  (* adiabatic_reaction through stream i of a heap with consistent memos *)
+  Lemma hadiabatic_lemma is_stream callf h i Qin h' : hinv h ->
+    hadiabatic hspec solveP hf is_stream callf h i Qin = (None, h') ->
+    exists s c s' c', nth_error h i = Some (s, c) /\ nth_error h' i = Some (s', c') /\
+      HN s' == HN s + Qin /\ callf (pmol s) = (None, pmol s') /\
+      (forall j, j <> i -> nth_error h' j = nth_error h j) /\ hinv h'.
+  Proof.
+    intros I. unfold hadiabatic. destruct (nth_error h i) as [[s c]|] eqn:E; [|discriminate].
+    assert (Ic : cinv hspec c) by (apply (Forall_nth_error _ h i (s, c) I E)).
+    destruct (adiabatic_cached hspec solveP hf is_stream callf (s, c) Qin) as [e [s' c']] eqn:A.
+    intros H; inversion H; subst; clear H.
+    destruct (adiabatic_cached_lemma hspec hspec_ext solveP hf solveC_ok is_stream callf s c Qin s' c' Ic A) as (B & C & D).
+    exists s, c, s', c'. repeat split; auto.
+    - eapply nth_error_hset_same; eauto.
+    - intros j N. apply nth_error_hset_other; auto.
+    - apply Forall_hset; auto.
+  Qed.
+
+  (* the isothermal call through stream i: flows of stream i change by the reaction, T and phase stay,
+     nothing else in the heap changes *)
+  Lemma hisothermal_lemma callf h i e h' :
+    hisothermal callf h i = (e, h') -> (i < length h)%nat ->
+    exists s c, nth_error h i = Some (s, c) /\
+      nth_error h' i = Some (mkP (snd (callf (pmol s))) (pT s) (pph s), c) /\ e = fst (callf (pmol s)) /\
+      (forall j, j <> i -> nth_error h' j = nth_error h j).
+  Proof.
+    unfold hisothermal. intros H L. destruct (nth_error h i) as [[s c]|] eqn:E.
+    - unfold isothermal_cached in H. destruct (callf (pmol s)) as [e1 mol'] eqn:C.
+      inversion H; subst; clear H. exists s, c. rewrite C. cbn [fst snd]. split; [|split; [|split]]; auto.
+      + eapply nth_error_hset_same; eauto.
+      + intros j N. apply nth_error_hset_other; auto.
+    - apply nth_error_None in E. lia.
+  Qed.
+
+  (* end to end: a program that makes streams by copying, reads and changes them in any order, then reacts
+     one of them adiabatically *)
+  Lemma adiabatic_after_copies ops s0 is_stream callf i Qin h' :
+    hadiabatic hspec solveP hf is_stream callf (fst (shrun hspec [(s0, cache0)] ops)) i Qin = (None, h') ->
+    exists s s', nth_error (fst (shrun_ref [s0] ops)) i = Some s /\ nth_error (map fst h') i = Some s' /\
+      HN s' == HN s + Qin /\ callf (pmol s) = (None, pmol s') /\
+      (forall j, j <> i -> nth_error (map fst h') j = nth_error (fst (shrun_ref [s0] ops)) j).
+  Proof.
+    intros A.
+    assert (I0 : hinv [(s0, cache0)]) by (constructor; [exact Logic.I|constructor]).
+    destruct (shrun_transparent ops _ I0) as (T1 & _ & T3). simpl in T1.
+    destruct (hadiabatic_lemma _ _ _ _ _ _ T3 A) as (s & c & s' & c' & E & E' & B & C & F & _).
+    exists s, s'. rewrite <- T1. rewrite !nth_error_map_fst. rewrite E, E'. simpl. repeat split; auto.
+    intros j N. rewrite !nth_error_map_fst. rewrite F; auto.
+  Qed.
+End HeapProofs.
